@@ -68,6 +68,10 @@ structure Cfg where
   closeOnBackpressure : Bool := Gen.TcpSession.closeOnBackpressure
   edge : Bool := Gen.TcpSession.useEdgeTriggered
   ioReadChunk : Nat := Gen.TcpSession.ioReadChunk
+  /-- `updateInterest` keeps a per-session copy of the registered mask and skips `epoll_ctl(MOD)` when the mask is unchanged.
+  The code as it is issues the MOD unconditionally (`false`, regenerated from the source); the flag exists so that the model
+  follows the source if that changes, and so that T3 can say which behaviour it needs. -/
+  modSkipsUnchanged : Bool := Gen.TcpSession.updateInterestSkipsUnchangedMask
   deriving Repr
 
 structure St where
@@ -100,11 +104,14 @@ def R.andThen (r : R) (f : St → R) : R :=
   let r' := f r.1
   (r'.1, r.2 ++ r'.2)
 
-/-- mirrors tcp_engine.hpp::updateInterest -/
+/-- the `needWrite` computation of tcp_engine.hpp::updateInterest -/
+def needWrite (s : St) : Bool :=
+  s.wantWrite || !s.wq.isEmpty || (if s.tls = .handshake then s.tlsWantWrite else s.connectPending)
+
+/-- mirrors tcp_engine.hpp::updateInterest (and modEpoll: one unconditional `epoll_ctl(EPOLL_CTL_MOD)`) -/
 def updateInterest (cfg : Cfg) (s : St) : R :=
-  let need := s.wantWrite || !s.wq.isEmpty ||
-    (if s.tls = .handshake then s.tlsWantWrite else s.connectPending)
-  ({ s with interestOut := need, rearmed := need }, [.interest need cfg.edge])
+  if cfg.modSkipsUnchanged && needWrite s == s.interestOut then (s, [])
+  else ({ s with interestOut := needWrite s, rearmed := needWrite s }, [.interest (needWrite s) cfg.edge])
 
 /-- mirrors tcp_engine.hpp::closeNow (idempotent; the session object is destroyed, so its queue is gone) -/
 def closeNow (s : St) (w : Why) : R :=
@@ -317,14 +324,14 @@ def connectCheck (s : St) (c : CAns) : R :=
 
 /-- inputs of the session: commands taken from the command queue and epoll events, each with the environment's answers -/
 inductive In
-  | cmdSend (p : Bytes) (a : WAns)                   -- `Cmd::Send` arm of `process()` → `doSend`
+  | cmdSend (p : Bytes) (a : WAns)                   -- `send(sid, p)` (n == 0: nothing is enqueued) → `Cmd::Send` arm of `process()` → `doSend`
   | cmdClose (w : Why)                               -- `Cmd::Close` arm / shutdownDrain → the session is closed
   | connectCheck (c : CAns)
   | event (ev : Ev) (soOk : Bool) (c : CAns) (h : HAns) (rs : List RAns) (ws : List WAns)
   deriving Repr
 
 def step (cfg : Cfg) (s : St) : In → R
-  | .cmdSend p a => doSend cfg s p a
+  | .cmdSend p a => if p.isEmpty then (s, []) else doSend cfg s p a
   | .cmdClose w => closeNow s w
   | .connectCheck c => connectCheck s c
   | .event ev soOk c h rs ws => onSession cfg s ev soOk c h rs ws
